@@ -558,7 +558,10 @@ fn child(node: dom::XmlNode) -> Vec<dom::XmlNode> {
     let mut nodes = vec![];
 
     for c in node.child_nodes().iter() {
-        nodes.push(c.clone());
+        // the document type declaration is not a node of the XPath data model
+        if !matches!(c, dom::XmlNode::DocumentType(_)) {
+            nodes.push(c.clone());
+        }
     }
 
     nodes
@@ -567,7 +570,7 @@ fn child(node: dom::XmlNode) -> Vec<dom::XmlNode> {
 fn descendant(node: dom::XmlNode) -> Vec<dom::XmlNode> {
     let mut nodes = vec![];
 
-    for child in node.child_nodes().iter() {
+    for child in child(node) {
         nodes.push(child.clone());
 
         let mut desc = descendant(child);
@@ -614,7 +617,9 @@ fn following_sibling(node: dom::XmlNode) -> Vec<dom::XmlNode> {
 
     let mut next = node.next_sibling();
     while let Some(n) = next {
-        nodes.push(n.clone());
+        if !matches!(n, dom::XmlNode::DocumentType(_)) {
+            nodes.push(n.clone());
+        }
         next = n.next_sibling();
     }
 
@@ -661,7 +666,9 @@ fn preceding_sibling(node: dom::XmlNode) -> Vec<dom::XmlNode> {
 
     let mut prev = node.previous_sibling();
     while let Some(p) = prev {
-        nodes.push(p.clone());
+        if !matches!(p, dom::XmlNode::DocumentType(_)) {
+            nodes.push(p.clone());
+        }
         prev = p.previous_sibling();
     }
 
